@@ -126,8 +126,16 @@ def run(ctx):
     for i in range(N(60, 500)):
         n = rng.choice([2, 3, 4])
         const, one, two = rand_hermitian_iop(rng, n)
+        if i % 3 == 2:
+            # general (non-Hermitian, unsymmetrised) tensors: a few arbitrary entries, e.g. a lone a+_3 a+_1 a_2 a_0
+            one = np.zeros((n, n), dtype=complex); two = np.zeros((n,) * 4, dtype=complex)
+            for _ in range(rng.randint(0, 2)): one[rng.randrange(n), rng.randrange(n)] = dyc(rng)
+            for _ in range(rng.randint(1, 4)): two[tuple(rng.randrange(n) for _ in range(4))] = dyc(rng)
         iop = of.InteractionOperator(const, one, two)
         out = of.normal_ordered(iop)
+        if np.any([out.two_body_tensor[p_, q_, r_, s_] != 0 and not (p_ > q_ and r_ > s_) for p_, q_, r_, s_ in zip(*np.nonzero(out.two_body_tensor))]):
+            ctx.violation('C03 normal_ordered(InteractionOperator): a two-body entry outside p > q, r > s is non-zero (terms not in normal order)',
+                          {'call': 'normal_ordered(InteractionOperator)', 'one_body': repr(one.tolist()), 'two_body_nonzero': {repr(k): repr(two[k]) for k in zip(*np.nonzero(two))}})
         a, b = spec_tensor(const, one, two), spec_tensor(out.constant, out.one_body_tensor, out.two_body_tensor)
         if not exact_terms_ok(a) or not exact_terms_ok(b): continue
         add('interaction_op', '(fermi_equiv %s %s)' % (coq_fop_terms(a), coq_fop_terms(b)),
